@@ -50,3 +50,13 @@ func decodingLayerDecoder(d layerDecodingLayer, data []byte, p gopacket.PacketBu
 
 // hacky way to zero out memory... there must be a better way?
 var lotsOfZeros [1024]byte
+
+// contentsAndPayload returns the layer's contents followed by its payload in a
+// buffer of its own. Appending the payload to Contents instead would write
+// into the packet's data whenever Contents has spare capacity, which it has
+// for every decoded packet, so concurrent readers of one packet would race.
+func (b *BaseLayer) contentsAndPayload() []byte {
+	out := make([]byte, 0, len(b.Contents)+len(b.Payload))
+	out = append(out, b.Contents...)
+	return append(out, b.Payload...)
+}
